@@ -20,6 +20,7 @@ UNITS = {
     'open': {'rlimit': 50, 'timeout': 120},
     'bytesio': {'rlimit': 50, 'timeout': 120},
     'builder': {'rlimit': 50, 'timeout': 240},
+    'encode': {'rlimit': 100, 'timeout': 240},
 }
 
 PROPS = {
@@ -37,7 +38,7 @@ PROPS = {
         'assumptions': ['iterator front ends (from_iter, extend_iter, extend_stream) not decided by a verifier'],
     },
     'C07': {
-        'units': ['cw', 'bytesio', 'builder'],
+        'units': ['cw', 'bytesio', 'encode', 'builder'],
         'kani': [],
         'level_text': 'Proof per function: CountingWriter::write re-establishes count == bytes accepted and checksum == CRC of the bytes '
                       'accepted for every behaviour the sink contract allows (any accepted prefix, any error); every emitting builder '
@@ -60,7 +61,7 @@ PROPS = {
         'assumptions': [],
     },
     'C11': {
-        'units': ['cw', 'bytesio', 'builder'],
+        'units': ['cw', 'bytesio', 'encode', 'builder'],
         'kani': [],
         'own': {'builder': r'Builder::(into_inner|new_type|new|compile|compile_from|insert_output|insert|add)$'},
         'level_text': 'Proof: every writing function is verified against the sink model: it reports Ok only if every byte of its output '
